@@ -450,6 +450,21 @@ func catalogue() []*input {
 			{files: []fileEnt{f("a", blobHello, false), f("a", blobHello, false)}},
 			specF,
 		}},
+		// Two child DIRECTORIES of the same name with DIFFERENT digests and
+		// disjoint contents: a population that tolerates "already exists"
+		// when creating the second one would silently build the union
+		// a/a/{a,b}, a tree that no Directory message describes.
+		&input{name: "m/dup-dir-dir-diff", dirs: []dirSpec{
+			{dirs: []dirEnt{d("a", 1)}, files: []fileEnt{f("b", blobHello, false)}},
+			{files: []fileEnt{valid}, dirs: []dirEnt{d("a", 2), d("a", 3)}},
+			specG,
+			{files: []fileEnt{f("b", blobHello, false)}},
+		}},
+		&input{name: "mr/dup-dir-dir-diff", dirs: []dirSpec{
+			{files: []fileEnt{valid}, dirs: []dirEnt{d("a", 1), d("a", 2)}},
+			specG,
+			{files: []fileEnt{f("b", blobHello, false)}},
+		}},
 		&input{name: "m/absent-deep", dirs: []dirSpec{
 			{dirs: []dirEnt{d("a", 1)}, files: []fileEnt{f("b", blobHello, false)}},
 			{dirs: []dirEnt{d("a", 2)}, files: []fileEnt{f("b", blobWorld, false)}},
